@@ -399,6 +399,14 @@ theorem strategy_tables_match_source :
   ⟨by decide, by decide, by decide, by decide, by decide, by decide, by decide, by decide, by decide,
    by decide, by decide⟩
 
+set_option maxRecDepth 8192 in
+/-- the bodies of the three `tune_parameters` are the ones Tune.lean models (`tuneBase`, `tuneSrc`,
+    `tuneGa`): same guards (`!constrained.x`), same default expressions, same order -/
+theorem tune_bodies_match_source :
+    GenEvo.tuneBaseSrc = Model.tuneBaseSrc ∧ GenEvo.tuneSrcSrc = Model.tuneSrcSrc ∧
+    GenEvo.tuneGaSrc = Model.tuneGaSrc :=
+  ⟨by decide, by decide, by decide⟩
+
 omit [DecidableEq α] [DecidableEq F] in
 /-- the best-so-far update of the model is the interpretation of the "new best" block of the
     source (same block in all three replacement strategies): it fires iff
